@@ -5,7 +5,7 @@ initializer (element type: cost 1; (payload, storage) variant: exhaustive when a
 quick: bound 1, thorough: bound 2.  Each leaf builds M with plain protobuf code (c15_models), runs the real API on
 the proto form and on the IR form and checks the five clauses of the statement with a field-wise comparison
 written here (c15_diff):
-  (a) parity      proto(f)(M) == serialize(ir(f)(deserialize(M)))         (modulo what serde alone does to M)
+  (a) parity      proto(f)(M) == serialize(ir(f)(deserialize(M)))   (map-like fields by key; explicit defaults excused)
   (b) lost-field  every element the API has no reason to touch (_protected) equals N(M)'s (or M's) element
   (c) serde-loss  M is field-wise included in N(M) = serialize(deserialize(M)); payloads read back bit-exact
   (d) not-idempotent  N(N(M)) == N(M)
@@ -25,11 +25,12 @@ from vf.props import c15_models as MZ
 
 ID = "C15"
 LEVEL = "model_checking"
-RULE = ("choice tree: base model {plain, If subgraph, model-local function} (exhaustive) x API variant (14 incl. the serde round trip, exhaustive: "
+RULE = ("choice tree: base model {plain, If subgraph, model-local function, bait-free (every API is a no-op; carriers one "
+        "at a time in both tiers)} (exhaustive) x API variant (13 incl. the serde round trip, exhaustive: "
         "serde, optimize, optimize(inline=False), rewrite(None), rewrite([]), rewrite([rule]), fold_constants, "
         "fold_constants(onnx_shape_inference=True), "
-        "remove_unused_nodes, remove_unused_functions, convert_version, convert_version(fallback), convert_version "
-        "via onnx C API, replace_functions) x carriers (one boolean per carrier, cost 1) x exotic initializer (element "
+        "remove_unused_nodes, remove_unused_functions, convert_version, convert_version(26, fallback=True) "
+        "= onnx C API path, replace_functions) x carriers (one boolean per carrier, cost 1) x exotic initializer (element "
         "type: cost 1; its (payload, storage) variant: exhaustive when no other carrier is on, cost 1 otherwise); "
         "deviation bound 1 (quick) / 2 (thorough); both "
         "entry forms {ModelProto, ir.Model} are executed in every leaf.  distinct_nontrivial = distinct (base, api, "
@@ -41,11 +42,10 @@ ASSUMPTIONS = ["protobuf (upb) deterministic serialization and ListFields/HasFie
 
 APIS = ["serde", "optimize", "optimize_noinline", "rewrite_default", "rewrite_empty", "rewrite_custom", "fold_constants",
         "fold_constants_infer",
-        "remove_unused_nodes", "remove_unused_functions", "convert_version", "convert_version_fallback",
-        "convert_version_capi", "replace_functions"]
+        "remove_unused_nodes", "remove_unused_functions", "convert_version", "convert_version_capi", "replace_functions"]
 # docstring says in place (or returns None): the object given must hold the result afterwards
 IN_PLACE = {"fold_constants", "fold_constants_infer", "remove_unused_nodes", "remove_unused_functions", "convert_version",
-            "convert_version_fallback", "convert_version_capi"}
+            "convert_version_capi"}
 # mutually exclusive carriers (they populate the same field)
 EXCL = [("ir_version=9", "ir_version=13"), ("model_version", "model_version=0"),
         ("external_data", "external_data.offset_length", "external_data.checksum"),
@@ -73,18 +73,21 @@ def _variants():
     return _VARIANTS
 
 
-def _driver(ch):
+def _driver(ch, bound=1):
     base = ch.all("base", MZ.BASES)
     api = ch.all("api", APIS)
     on = []
+    # the bait-free base exists to reach the "nothing to do" branch of every wrapper: its carriers are
+    # enumerated one at a time in both tiers (a deviation there costs the whole bound)
+    cost = bound if base == "nobait" else 1
     for name in MZ.CARRIER_NAMES:
         if base not in MZ.CARRIERS[name][0]:
             continue
-        if ch.flag("carrier:" + name):
+        if ch.flag("carrier:" + name, cost=cost):
             if _EXCL_OF.get(name, set()) & set(on):
                 raise explore.Prune()
             on.append(name)
-    dtype = ch.choose("init.dtype", [None] + list(MZ.DT))
+    dtype = ch.choose("init.dtype", [None] + list(MZ.DT), cost=cost)
     init = None
     if dtype is not None:
         # alone, every (payload, storage) of the element type is enumerated; combined with another carrier the
@@ -97,7 +100,7 @@ def _driver(ch):
 def plan(tier, seed):
     st = explore.Stats()
     bound = 1 if tier == "quick" else 2
-    items = [case for _, case in explore.explore(_driver, bound=bound, stats=st)]
+    items = [case for _, case in explore.explore(lambda ch: _driver(ch, bound), bound=bound, stats=st)]
     items.sort(key=lambda it: (it["base"], it["api"], it["carriers"], it["init"] or []))
     d = st.as_dict()
     d["exhaustive"] = not st.capped
@@ -166,9 +169,6 @@ def _call(api, obj, info, is_proto):
     if api == "convert_version":
         vc.convert_version(obj, info["target"])
         return obj
-    if api == "convert_version_fallback":
-        vc.convert_version(obj, info["target"], fallback=True)
-        return obj
     if api == "convert_version_capi":
         vc.convert_version(obj, 26, fallback=True)
         return obj
@@ -198,7 +198,6 @@ _BAIT = {
     "optimize": {"c1", "c2", "f", "v", "d", "z0", "nz", "o2a", "o2", "fo"},
     "optimize_noinline": {"c1", "c2", "f", "v", "d", "z0", "nz", "o2a", "o2"},
     "convert_version": {"fo", "d"},
-    "convert_version_fallback": {"fo", "d"},
     "convert_version_capi": {"fo", "d"},
     "replace_functions": {"q"},
 }
@@ -308,8 +307,7 @@ def _same_element(a, b, api):
 
 
 _API_OF = {"optimize_noinline": "optimize", "fold_constants_infer": "fold_constants", "rewrite_default": "rewrite", "rewrite_empty": "rewrite",
-           "rewrite_custom": "rewrite", "convert_version_fallback": "convert_version",
-           "convert_version_capi": "convert_version"}
+           "rewrite_custom": "rewrite", "convert_version_capi": "convert_version"}
 
 
 def _where(path):
@@ -482,16 +480,13 @@ def execute(item):
         if Ri is not Mi:
             viols.append(_viol("parity", api, "original-not-returned", {"entry": "ir"}))
     elif rp_bytes != si_bytes:
-        # differences that serde alone produces on M (clause c) are reported there, not as a wrapper disparity
-        serde_paths = {p for p, _, _ in D.diff(D.sort_keyed(M), D.sort_keyed(NM), limit=200)}
+        # literal reading of the statement; only an explicitly set default present on one side is excused
+        # (the serde clause lets it vanish).  Map-like fields are compared by key, not by position.
         ds = D.diff(D.sort_keyed(Rp), D.sort_keyed(Si), keyed_nodes=False)
         seen = set()
         for path, kind, detail in ds:
             if kind in ("default", "default+"):
                 counts["parity_explicit_default_only"] = counts.get("parity_explicit_default_only", 0) + 1
-                continue
-            if path in serde_paths:
-                counts["parity_diff_is_serde_diff"] = counts.get("parity_diff_is_serde_diff", 0) + 1
                 continue
             where = _where(path)
             if where in seen:
